@@ -407,6 +407,18 @@ func (opts *Options) loadCfg() {
 			opts.VFlowConfigPath, _ = path.Split(file)
 			break
 		}
+		// the flag package takes --config, -config=file and --config=file as well
+		if name := strings.TrimPrefix(strings.TrimPrefix(flag, "-"), "-"); name != flag {
+			if name == "config" && i+1 < len(os.Args) {
+				file = os.Args[i+1]
+			} else if strings.HasPrefix(name, "config=") {
+				file = strings.TrimPrefix(name, "config=")
+			} else {
+				continue
+			}
+			opts.VFlowConfigPath, _ = path.Split(file)
+			break
+		}
 	}
 
 	b, err := ioutil.ReadFile(file)
